@@ -19,6 +19,8 @@ ACCEPTED_WHY = set()      # the spec's tuples are per transport: every one of th
 def run(ctx):
     thorough = ctx.tier == "thorough"
     vf.build_driver(ctx)
+    if thorough:
+        vf.build_driver(ctx, race=True)
     # ---- design level ----------------------------------------------------------------------------------
     tuples = None
     # (config, expected violation): the last three are vacuity guards - the pinned Ping select, a refused write that
